@@ -529,8 +529,8 @@ prop("C10", ["l2"], "exploration",
 prop("C11", ["l2"], "exploration",
      L2_RULE + "Focus: functions with invalidate_on; the check's verdict is scripted per call (changes between calls); bodies return a fresh value per execution so a refresh is visible. Non-trivial = a 'stale' verdict on a cached entry; distinct = distinct (function, tuple, verdict, cache size).",
      COMMON_ASSUME, ("C11", "stale_verdicts_on_cached_entries"))
-prop("C12", ["l2"], "exploration",
-     L2_RULE + "Focus: tag/event/dependency/name requests (including names nothing declares, names declared in another table, names of unused or metadata-less caches) in many short-lived processes, so that 'used at least once' varies; expected matches are computed from the generator's metadata table over the whole corpus. Non-trivial = a request; distinct = distinct (kind, name, set of matching used caches).",
+prop("C12", ["l2", "conc"], "exploration",
+     CONC_RULE + "Under concurrency: once a matching group invalidation has returned, no call may be served an entry that certainly dates from before it (the key was seen by a listing probe that finished before the invalidation began and no execution for it was invoked later, or every execution had already returned). " + L2_RULE + "Focus: tag/event/dependency/name requests (including names nothing declares, names declared in another table, names of unused or metadata-less caches) in many short-lived processes, so that 'used at least once' varies; expected matches are computed from the generator's metadata table over the whole corpus. Non-trivial = a request; distinct = distinct (kind, name, set of matching used caches).",
      COMMON_ASSUME, ("C12", "group_invalidation_requests"))
 prop("C13", ["l2"], "exploration",
      L2_RULE + "Focus: invalidate_with / invalidate_all_with with predicates = arbitrary subsets of the stored keys (per cache), followed by further history so that leftover bookkeeping shows as a wrong later eviction. Non-trivial = a conditional invalidation; distinct = distinct (function, entries before, subset).",
